@@ -65,6 +65,32 @@ theorem performRedirs_limit (o : Oracle W) (w : W) (t : FdTable) (rs : List Redi
       simp only
       rw [ih]; exact perform_limit o w t r
 
+theorem isCloexec_congr {a b : FdTable} {fd : Fd} (h : a.get fd = b.get fd) : a.isCloexec fd = b.isCloexec fd := by
+  simp [FdTable.isCloexec, h]
+
+/-- a CLOEXEC descriptor after `perform` was CLOEXEC before or is the saved copy just made -/
+theorem perform_cloexec_origin (o : Oracle W) (w : W) (t : FdTable) (r : Redir) (fd : Fd)
+    (h : (perform o w t r).t.isCloexec fd = true) :
+    t.isCloexec fd = true ∨ ∃ s, (perform o w t r).r = .ok s ∧ s.save = some fd := by
+  rcases perform_spec o w t r with ⟨s, hs, hp⟩ | ⟨e, _, heq⟩
+  · cases hsv : s.save with
+    | none =>
+      have hch := (hp.none_case hsv).2
+      by_cases hfd : fd = r.fd
+      · rw [hfd, hch.plain] at h; cases h
+      · left; rw [← isCloexec_congr (hch.frame fd hfd)]; exact h
+    | some sv =>
+      obtain ⟨e, _, _, _, _, hch⟩ := hp.some_case sv hsv
+      by_cases hfd : fd = r.fd
+      · rw [hfd, hch.plain] at h; cases h
+      · by_cases hsvfd : fd = sv
+        · right; exact ⟨s, hs, by rw [hsv, hsvfd]⟩
+        · left
+          rw [isCloexec_congr (hch.frame fd hfd)] at h
+          rw [← isCloexec_congr (a := t.put sv _) (b := t) (fd := fd) (by simp [hsvfd])]
+          exact h
+  · left; rw [← isCloexec_congr (heq.2 fd)]; exact h
+
 theorem preserveRedirs_cons (t : FdTable) (s : SavedFd) (ss : List SavedFd) :
     preserveRedirs t (s :: ss) = preserveRedirs (preserveOne t s) ss := rfl
 
